@@ -2104,6 +2104,12 @@ class _GroupElem(ABC):
             error_e = np.abs(1 - diff_e)  # a perfect element has an error max <= 1e-12
             # A distorted element exhibits a maximum error greater than zero.
             useIterative_e = error_e > 1e-12
+            # The determinant can be constant while the jacobian matrix itself is not (twisted faces):
+            # the map is affine only if F is the same at every gauss point.
+            F_e_pg = np.asarray(self.Get_F_e_pg(matrixType))
+            F_e = F_e_pg.reshape(F_e_pg.shape[0], F_e_pg.shape[1], -1)
+            diffF_e = np.abs(F_e - F_e[:, :1]).max(axis=(1, 2))
+            useIterative_e |= diffF_e > 1e-12 * np.abs(F_e).max(axis=(1, 2))
         else:
             coordInElem_n = None
 
